@@ -1,26 +1,32 @@
 // Command verifh is the harness binary: it is compiled inside the repository
 // module (through the build overlay) against the instrumented sources.
+//
+//	verifh check <ID> <tier> [workers] [seed]   run all jobs of a check in worker processes, print the merged report
+//	verifh job <ID> <tier> <n>                  run one job (worker)
+//	verifh replay <ID> <file>                   re-execute a replay artefact
+//	verifh litmus                               vsched/vrewrite self-test
 package main
 
 import (
+	"encoding/json"
 	"fmt"
 	"os"
-	"time"
+	"runtime"
+	"strconv"
 
-	"github.com/pion/interceptor"
-	"github.com/pion/interceptor/pkg/nack"
+	_ "github.com/pion/interceptor/verifh/c03"
+	"github.com/pion/interceptor/verifh/hk"
 	"github.com/pion/interceptor/verifh/litmus"
 	"github.com/pion/interceptor/vsched"
-	"github.com/pion/rtcp"
-	"github.com/pion/rtp"
 )
 
 func main() {
-	if len(os.Args) > 1 && os.Args[1] == "smoke" {
-		smoke()
-		return
+	if len(os.Args) < 2 {
+		fmt.Println("verifh: no command")
+		os.Exit(2)
 	}
-	if len(os.Args) > 1 && os.Args[1] == "litmus" {
+	switch os.Args[1] {
+	case "litmus":
 		r := litmus.Run()
 		fmt.Printf("litmus: cases=%d executions=%d failed=%d race=%v\n", r.Cases, r.Executions, len(r.Failed), vsched.RaceEnabled)
 		for _, f := range r.Failed {
@@ -29,41 +35,47 @@ func main() {
 		if len(r.Failed) > 0 {
 			os.Exit(1)
 		}
-		return
-	}
-	fmt.Println("verifh: no command")
-}
-
-func smoke() {
-	var got []rtcp.Packet
-	res := vsched.Run(vsched.Options{Strategy: vsched.BackgroundFirst{}}, func() {
-		f, _ := nack.NewGeneratorInterceptor()
-		i, _ := f.NewInterceptor("")
-		i.BindRTCPWriter(interceptor.RTCPWriterFunc(func(pkts []rtcp.Packet, _ interceptor.Attributes) (int, error) {
-			got = append(got, pkts...)
-			return 0, nil
-		}))
-		seqs := []uint16{10, 11, 13, 16}
-		k := 0
-		rd := i.BindRemoteStream(&interceptor.StreamInfo{SSRC: 1, RTCPFeedback: []interceptor.RTCPFeedback{{Type: "nack"}}},
-			interceptor.RTPReaderFunc(func(b []byte, a interceptor.Attributes) (int, interceptor.Attributes, error) {
-				p := rtp.Packet{Header: rtp.Header{Version: 2, SSRC: 1, SequenceNumber: seqs[k]}}
-				k++
-				n, err := p.MarshalTo(b)
-				return n, a, err
-			}))
-		buf := make([]byte, 1500)
-		for range seqs {
-			rd.Read(buf, interceptor.Attributes{})
+	case "check":
+		id, tier := os.Args[2], os.Args[3]
+		workers := runtime.NumCPU()
+		if len(os.Args) > 4 {
+			workers, _ = strconv.Atoi(os.Args[4])
 		}
-		vsched.Advance(150 * time.Millisecond)
-		fmt.Println("live threads before close:", len(vsched.LiveNonApp()))
-		i.Close()
-		vsched.Quiesce()
-		fmt.Println("live threads after close:", len(vsched.LiveNonApp()))
-	})
-	fmt.Printf("result: %+v\n", *res)
-	for _, p := range got {
-		fmt.Printf("rtcp: %v\n", p)
+		var seed int64
+		if len(os.Args) > 5 {
+			seed, _ = strconv.ParseInt(os.Args[5], 10, 64)
+		}
+		rep := hk.RunCheck(id, tier, workers, seed, vsched.RaceEnabled)
+		enc := json.NewEncoder(os.Stdout)
+		enc.SetIndent("", " ")
+		_ = enc.Encode(rep)
+	case "job":
+		n, _ := strconv.Atoi(os.Args[4])
+		os.Exit(hk.RunJobProcess(os.Args[2], os.Args[3], n))
+	case "replay":
+		c := hk.Lookup(os.Args[2])
+		if c == nil || c.Replay == nil {
+			fmt.Println("no replay for", os.Args[2])
+			os.Exit(2)
+		}
+		raw, err := os.ReadFile(os.Args[3])
+		if err != nil {
+			fmt.Println(err)
+			os.Exit(2)
+		}
+		var art struct {
+			Replay json.RawMessage `json:"replay"`
+		}
+		if err := json.Unmarshal(raw, &art); err != nil || art.Replay == nil {
+			art.Replay = raw
+		}
+		if msg := c.Replay(art.Replay); msg != "" {
+			fmt.Println("REPRODUCED:", msg)
+			os.Exit(1)
+		}
+		fmt.Println("replay passes (no violation)")
+	default:
+		fmt.Println("verifh: unknown command", os.Args[1])
+		os.Exit(2)
 	}
 }
